@@ -905,7 +905,9 @@ def xcheck_ok(case):
 
 RULE = ('pairs of values produced by different operation sequences (commuted / re-associated / distributed field '
         'expressions, three scalar-multiplication paths, rescaled and normalised projective representatives, '
-        'identity representatives with arbitrary coordinates, polynomial operator chains) plus unequal neighbours '
+        'identity representatives with arbitrary coordinates, polynomial expressions over dense AND sparse operands: '
+        'operators, conversions, division, evaluate/interpolate round trip, with equal / opposite / shared-monomial / '
+        'leading-cancellation / zero / single-term / truly sparse operands over Fr and F_13) plus unequal neighbours '
         '(one limb / one coordinate / sign), over boundary operand classes; every ordered pair of F_13 (and of '
         'F_13^2 in the thorough tier); curve points A = T + s G with T ANY point of the curve by raw affine '
         'coordinates (orders 2, 4, 8 and the whole cofactor torsion on Jubjub, y = 0 / x = 0 points, points outside '
@@ -917,7 +919,8 @@ XCHECK = {'quick': 160, 'thorough': 600}
 TRUSTED = ['std::collections::hash_map::DefaultHasher (SipHash-1-3, zero keys) is used only to compare two hashes '
            'with each other; the hasher is not modelled (a hash is an arbitrary function of the hashed structure)',
            'educe / derive(PartialEq, Hash) are modelled as field-wise equality / hashing of all fields',
-           'coq/C01 Montgomery model (into_bigint) and coq/C03 curve models are imported, see their packages']
+           'coq/C01 Montgomery model (into_bigint), coq/C03 curve models and coq/C08 polynomial operator models (FFT / inverse FFT '
+           'specified there, not modelled) are imported, see their packages']
 ASSUMPTIONS = ['default features, x86-64 (the unrolled top-down loop of BigInt::cmp)',
                'Fp elements are always reduced Montgomery representatives (C01 invariant): wf, length N, val < p']
 HYPOTHESES = ['good_field F (field_theory of the dictionary operations with Leibniz equality, feqb decides '
